@@ -11,6 +11,7 @@ DRIVERS = {
     'pbofile': {'src': 'replay/drivers/pbofile.cpp', 'flags': [], 'search_arg': '0'},
     'pp_reader': {'src': 'replay/drivers/pp_reader.cpp', 'flags': [], 'search_arg': '7'},
     'value_convert': {'src': 'replay/drivers/value_convert.cpp', 'flags': ['-fsanitize=float-cast-overflow', '-fno-sanitize-recover=all'], 'search_arg': '0'},
+    'fileio_bom': {'src': 'replay/drivers/fileio_bom.cpp', 'flags': [], 'search_arg': '0'},
     'call_binary': {'vm': 'call_binary'},
     'sqf_yylex': {'vm': 'sqf_yylex'},
     'array_ops': {'vm': 'array_ops'},
